@@ -74,17 +74,7 @@ func TestMain(m *testing.M) {
 	write("secret.txt", outside1)
 	write("public-evil/e.txt", outside2)
 	write("public-evil/index.html", outside2)
-	code := func() int {
-		defer os.RemoveAll(root)
-		evidMain(m)
-		return 0
-	}()
-	os.Exit(code)
-}
-
-// evidMain is evid.Main without its os.Exit, so that the fixture is removed.
-func evidMain(m *testing.M) {
-	defer func() { _ = os.RemoveAll(fixtureRoot) }()
+	evid.AtExit(func() { _ = os.RemoveAll(root) })
 	evid.Main(m, "C16", rule, assumptions)
 }
 
